@@ -76,7 +76,7 @@ CHECKS = {
     "C07": {
         "level": "model_checking",
         "technique": "TLA+ spec of the pool (Pool.tla) model-checked by TLC (safety + liveness, spec mutants refuted); TLC-simulated schedules replayed step by step on the real ThreadPool through cfg(rws_verif) gates; free-running hook traces validated by TLC (Trace_Pool)",
-        "text": "Exhaustive TLC check of exactly-once / no-loss / FIFO / mutual exclusion and of completion under weak fairness (rendezvous of N, slow tasks) for N<=3; three spec mutants must be refuted. Every distinct simulated behaviour is replayed on the real pool with all threads gated at the hook points (a spec-legal step the code does not take = refusal), and free runs with seeded timing perturbation for N in 1..8 are validated event by event, with quiescence checks from the closures' own counters.",
+        "text": "Exhaustive TLC check of exactly-once / no-loss / FIFO / mutual exclusion and of completion under weak fairness (rendezvous of N, slow tasks) for N<=3; three spec mutants must be refuted. Every distinct simulated behaviour is replayed on the real pool with all threads gated at the hook points (a spec-legal step the code does not take = refusal), and free runs with seeded timing perturbation for N in 1..8 are validated event by event, with quiescence checks from the closures' own counters. The largest instance of the quantifier (8 workers, 32 tasks of any kinds) is covered symbolically: Apalache shows the strengthened safety invariant of Pool.tla inductive there (thorough tier; quick: base case and implication), and the hold-the-lock variant must break the induction.",
         "note": "Trusted: TLC, hook placement (add-only, after each critical section), 3 s refusal timeout, single submitter.",
     },
     "C12": {
@@ -124,8 +124,8 @@ CHECKS = {
     "C20": {
         "level": "exploration",
         "technique": "TLA+ Totality.tla (a call's outcome is value or error; panic / abort / timeout have no action) with a TLC-enumerated abstract mutation space applied by the harness to valid seed documents; every call validated by TLC (Trace_Totality)",
-        "text": "40 parsing entry points (JSON object / property / array splitter / typed readers of every width, Base64 text and sequence, multipart, multipart/byteranges body, request, response, header, Content-Disposition, content-range, Range header and range spec, config file, command line, URL and query string, 4 URL-path functions, boundary, form body) x seeds x truncation and 6 byte classes at every position, 24 byte classes at 13 relative positions, deletion, duplication, nesting / long lines / repeated delimiters up to 20 000, line-ending variants, repetition of the seed 1000x, every number replaced by 32 boundary values, plus seeded random strings; each call on a 2 MiB-stack thread with a watchdog in a child process.",
-        "note": "Unbounded input space: exploration. Invalid UTF-8 cannot be passed to String-taking entry points. Known finding KF-C20-url-parse-dependency-unwrap (panic inside the url-build-parse dependency).",
+        "text": "49 parsing entry points (the legacy "_"-prefixed response reader and status-line reader, the request-line and header-line readers, the request-target accessors, percent decoding and the media type lookup among them; JSON object / property / array splitter / typed readers of every width, Base64 text and sequence, multipart, multipart/byteranges body, request, response, header, Content-Disposition, content-range, Range header and range spec, config file, command line, URL and query string, 4 URL-path functions, boundary, form body) x seeds x truncation and 6 byte classes at every position, 24 byte classes at 13 relative positions, deletion, duplication, nesting / long lines / repeated delimiters up to 20 000, line-ending variants, repetition of the seed 1000x, every number replaced by 32 boundary values, plus seeded random strings; each call on a 2 MiB-stack thread with a watchdog in a child process.",
+        "note": "Unbounded input space: exploration. Invalid UTF-8 cannot be passed to String-taking entry points. Known findings KF-C20-url-parse-dependency-unwrap (panic inside the url-build-parse dependency, also reached through Request::get_uri_path / get_uri_query) and KF-C20-legacy-response-reader (Response::_parse_response unwraps at every step and recurses per head line).",
     },
     "C18": {
         "level": "model_checking",
